@@ -18,6 +18,8 @@
 #include <fcppt/container/buffer/to_raw_vector.hpp>
 #include <fcppt/container/raw_vector/comparison.hpp>
 #include <fcppt/container/raw_vector/object.hpp>
+#include <fcppt/io/read_chars.hpp>
+#include <fcppt/io/optional_buffer.hpp>
 #include <fcppt/optional/object.hpp>
 
 #include <limits>
@@ -1131,6 +1133,83 @@ static void raw_vector_comparison_types()
   comparison_family<double>("double", float_alphabet<double>());
 }
 
+// ---------------------------------------------------------------- io::read_chars histories
+// read_chars(stream, n) is buffer::read_from_opt + to_raw_vector over an istream: all sequences of up to 3 calls with
+// counts from {0,1,2,3,5} (optionally preceded by one plain unformatted read on the stream) on texts of length 0..6.
+// Reference: a cursor into the text; a request for more than what is left yields nothing and leaves the stream failed,
+// after which every request yields nothing; a request for n <= remaining characters yields exactly those n.
+static void read_chars_histories()
+{
+  static int const counts[] = {0, 1, 2, 3, 5};
+  std::string const full = "abcdef";
+  for (std::size_t len = 0; len <= full.size(); ++len)
+    for (int pre = 0; pre < 3; ++pre) // 0: nothing, 1: stream.get(), 2: stream.ignore(2)
+      for (int nops = 1; nops <= 3; ++nops)
+      {
+        int total = 1;
+        for (int i = 0; i < nops; ++i)
+          total *= 5;
+        for (int code = 0; code < total; ++code)
+        {
+          std::vector<int> seq;
+          int x = code;
+          for (int i = 0; i < nops; ++i)
+          {
+            seq.push_back(counts[x % 5]);
+            x /= 5;
+          }
+          std::string text = "read_chars text=\"" + full.substr(0, len) + "\" pre=" + (pre == 0 ? "none" : pre == 1 ? "get" : "ignore(2)") + " counts=";
+          for (int c : seq)
+            text += std::to_string(c) + ",";
+          if (!vrt::begin_text("read_chars_histories", text))
+            continue;
+          vrt::maybe_sample();
+          std::istringstream stream(full.substr(0, len));
+          std::size_t pos = 0;
+          bool failed = false;
+          if (pre == 1)
+          {
+            if (stream.get() == std::char_traits<char>::eof())
+              failed = true;
+            else
+              pos = 1;
+          }
+          else if (pre == 2)
+          {
+            stream.ignore(2);
+            pos = std::min<std::size_t>(2, len);
+            failed = !stream.good(); // ignore() that meets the end sets eofbit: the next sentry fails
+          }
+          bool nontriv = false;
+          for (std::size_t k = 0; k < seq.size(); ++k)
+          {
+            std::size_t const n = static_cast<std::size_t>(seq[k]);
+            fcppt::io::optional_buffer const got = fcppt::io::read_chars(stream, n);
+            bool const want = !failed && n <= len - pos;
+            if (got.has_value() != want)
+            {
+              vrt::fail("read_chars:outcome", vrt::fmt("call %zu (count %zu, %zu characters left, stream %s) %s", k, n, len - pos, failed ? "failed" : "good",
+                                                       got.has_value() ? "returned a buffer" : "returned nothing"));
+              break;
+            }
+            if (want)
+            {
+              auto const &v = got.get_unsafe();
+              VRT_CHECK(v.size() == n, "read_chars:size", "call %zu asked for %zu characters, the buffer has size %zu", k, n, v.size());
+              VRT_CHECK(v.capacity() >= v.size(), "read_chars:capacity", "capacity %zu below size %zu", v.capacity(), v.size());
+              if (v.size() == n)
+                VRT_CHECK(std::equal(v.begin(), v.end(), full.begin() + static_cast<std::ptrdiff_t>(pos)), "read_chars:content", "call %zu returned other characters than the next %zu of the text", k, n);
+              pos += n;
+              nontriv = nontriv || (k > 0 && n == 0);
+            }
+            else
+              failed = true;
+          }
+          vrt::nontrivial(nontriv || failed);
+        }
+      }
+}
+
 int main(int argc, char **argv)
 {
   vrt::parse_args(argc, argv);
@@ -1161,5 +1240,6 @@ int main(int argc, char **argv)
   vrt::shard("raw_vector_growth_lattice", [] { raw_vector_growth(); });
   vrt::shard("buffer_growth_lattice", [] { buffer_growth(); });
   vrt::shard("raw_vector_comparison_types", [] { raw_vector_comparison_types(); });
+  vrt::shard("read_chars_histories", [] { read_chars_histories(); });
   return vrt::run(argc, argv);
 }
